@@ -40,6 +40,7 @@ type Scenario struct {
 	Files    []ScFile `json:"files"`
 	Dirs     []string `json:"dirs"`
 	Symlinks []ScLink `json:"symlinks"`
+	PwdLogical bool   `json:"pwd_logical,omitempty"` // PWD names the working directory as Cwd spells it (through its symbolic links), as after a shell's cd
 	Hardlinks []ScLink `json:"hardlinks,omitempty"` // further names (path) of a regular file of Files (target, relative to the root)
 	Args     []string `json:"args"`  // {ROOT} is replaced by the scenario root
 	Stdin    string   `json:"stdin"` //
@@ -355,6 +356,9 @@ func runScenario(bin, workdir string, sc *Scenario) (*RunRec, error) {
 		}
 	}
 	cmd.Env = os.Environ()
+	if sc.PwdLogical {
+		cmd.Env = append(cmd.Env, "PWD="+cmd.Dir)
+	}
 	if sc.RunAs != 0 {
 		cmd.Env = append(cmd.Env, "HOME=/nonexistent")
 	}
